@@ -315,6 +315,9 @@ func run(c Case) (v kit.Verdict) {
 	}
 
 	exported := l.Export()
+	if v2, handled := invalidEntries(mq, reqErr, exported.Log.Entries, 1); handled {
+		return append(v, v2...)
+	}
 	if reqErr != nil || len(exported.Log.Entries) != 1 {
 		v.Addf("C16/entry/"+reqShape(mq)+"/request-not-recorded", "ModifyRequest = %v, the log holds %d entries for one well-formed exchange", reqErr, len(exported.Log.Entries))
 		return v
@@ -326,6 +329,28 @@ func run(c Case) (v kit.Verdict) {
 		v = append(v, compareEntries(exported.Log.Entries[0], back.Log.Entries[0])...)
 	}
 	return v
+}
+
+// invalidEntries: entry validity on export. Every exported entry describes a
+// logged request (non-null request object). A request labelled as a form that
+// no form parser accepts cannot be converted when post-data logging is on: the
+// logger reports an error and the exchange contributes NO entry - in
+// particular not one without a request, to which the response of the exchange
+// would then be attached. handled = the request was such a request and failed
+// (nothing further can be compared for it).
+func invalidEntries(mq *msggen.Message, reqErr error, es []*har.Entry, exchanges int) (v kit.Verdict, handled bool) {
+	for i, e := range es {
+		if e.Request == nil {
+			v.Addf("C16/entry/request-conversion-failed/entry-without-request", "exported entry %d of %d has \"request\": null (response attached: %v); ModifyRequest had returned: %v", i, len(es), e.Response != nil, reqErr)
+		}
+	}
+	if mq.Spec.Body.Kind != "badform" || reqErr == nil {
+		return v, len(v) > 0
+	}
+	if len(v) == 0 && len(es) != exchanges-1 {
+		v.Addf("C16/entry/request-conversion-failed/entry-left-behind", "ModifyRequest failed (%v), yet the log holds %d entries where %d exchanges were recorded", reqErr, len(es), exchanges-1)
+	}
+	return v, true
 }
 
 // checkEntry compares one exported entry with the generated exchange.
@@ -418,6 +443,9 @@ func checkRequest(c Case, m *msggen.Message, r *har.Request) (v kit.Verdict) {
 	case pd == nil:
 		v.Addf("C16/postdata/"+shape+"/missing", "the request has a body of %d bytes, the entry has no postData", len(m.Entity))
 		return v
+	}
+	if m.Spec.Body.Kind == "badform" && captured {
+		return v // labelled as a form, is none: the statement says nothing about how it is to be rendered
 	}
 	if m.MediaParsable && pd.MimeType != m.MediaType {
 		v.Addf("C16/postdata/"+shape+"/mime-type-differs", "postData.mimeType %q for Content-Type %q", pd.MimeType, m.ContentType)
@@ -689,7 +717,7 @@ func maxBody() int {
 }
 
 func gen(t *rapid.T) Case {
-	o := msggen.Options{MaxBody: maxBody(), Forms: true}
+	o := msggen.Options{MaxBody: maxBody(), Forms: true, BadForms: true}
 	c := Case{Req: msggen.DrawRequest(t, o)}
 	c.Res = msggen.DrawResponse(t, o, c.Req.Method)
 	c.Post, c.Body = msggen.DrawHarOpt(t, "post"), msggen.DrawHarOpt(t, "body")
@@ -807,6 +835,9 @@ func classes(c Case) []string {
 			cl = append(cl, "stale-transfer-encoding")
 		}
 	}
+	if c.Req.Body.Kind == "badform" && c.Post.Captures(c.Req.ContentType) {
+		cl = append(cl, "unparseable-form-captured")
+	}
 	if c.Built {
 		cl = append(cl, "built-response")
 		if c.Req.Proto10 {
@@ -841,12 +872,12 @@ var propEntry = &kit.Prop[Case]{
 	Gates: map[string]float64{
 		"nontrivial": 0.6, "chunked-request": 0.1, "chunked-urlencoded": 0.01, "compressed-response": 0.15, "compressed-chunked-response": 0.03,
 		"non-utf8": 0.2, "non-utf8-param": 0.03, "req-body-multipart": 0.05, "req-body-form": 0.05, "post-optin": 0.08, "body-optout": 0.08,
-		"query": 0.3, "request-cookies": 0.15, "response-cookies": 0.15, "redirect": 0.08, "through-export-handler": 0.3, "option-history": 0.3, "option-overridden": 0.12, "stale-content-length": 0.02, "stale-host": 0.08, "stale-transfer-encoding": 0.02, "built-response": 0.08, "built-response-http10": 0.004,
+		"query": 0.3, "request-cookies": 0.15, "response-cookies": 0.15, "redirect": 0.08, "through-export-handler": 0.3, "option-history": 0.3, "option-overridden": 0.12, "stale-content-length": 0.02, "stale-host": 0.08, "stale-transfer-encoding": 0.02, "built-response": 0.08, "unparseable-form-captured": 0.02, "built-response-http10": 0.004,
 	},
 }
 
 var propMatrix = &kit.Prop[Case]{
-	ID: "C16", Name: "matrix", Rule: "ALL combinations of request body {none, text, binary, urlencoded, urlencoded with a non-UTF-8 value, multipart, multipart with a binary file part} x request framing {Content-Length, chunked in one / many chunks} x response {200 identity, gzip, deflate, br, GZIP, gzip+chunked, 206 gzip, 302, 204, 304 with Content-Encoding} x request method {POST, HEAD} x options {all, none}, plus 10 option histories (opt-out then all, opt-in then opt-out, none then opt-in, ... for both families) x image/text response x separate/single SetOption call, plus header-map literals disagreeing with the message fields (5 kinds x Content-Length/chunked exchange) and responses built with proxyutil.NewResponse (HTTP/1.0, 1.1 x 200/502/204 x POST/HEAD): " + rule,
+	ID: "C16", Name: "matrix", Rule: "ALL combinations of request body {none, text, binary, urlencoded, urlencoded with a non-UTF-8 value, multipart, multipart with a binary file part} x request framing {Content-Length, chunked in one / many chunks} x response {200 identity, gzip, deflate, br, GZIP, gzip+chunked, 206 gzip, 302, 204, 304 with Content-Encoding} x request method {POST, HEAD} x options {all, none}, plus 10 option histories (opt-out then all, opt-in then opt-out, none then opt-in, ... for both families) x image/text response x separate/single SetOption call, plus header-map literals disagreeing with the message fields (5 kinds x Content-Length/chunked exchange) and responses built with proxyutil.NewResponse (HTTP/1.0, 1.1 x 200/502/204 x POST/HEAD), and 5 kinds of unparseable form bodies x Content-Length/chunked x post-data logging on/off: " + rule,
 	Run: run, NonTrivial: nontrivial, Classes: classes,
 }
 
@@ -949,6 +980,22 @@ func matrix(yield func(Case) bool) {
 					rs.Framing, rs.Body, rs.ContentType = "none", msggen.Body{Kind: "none"}, ""
 				}
 				if !yield(Case{Req: rq, Res: rs, Post: allOpt, Body: allOpt, Built: true}) {
+					return
+				}
+			}
+		}
+	}
+	// requests labelled as forms that cannot be converted: no entry, and never one without a request
+	for _, bad := range []string{"escape", "semicolon", "multipart-unclosed", "multipart-noboundary", "multipart-truncated"} {
+		for _, framing := range []string{"cl", "chunked"} {
+			for _, mode := range []string{"all", "none"} {
+				ct := "application/x-www-form-urlencoded"
+				if strings.HasPrefix(bad, "multipart") {
+					ct = "multipart/form-data"
+				}
+				rq := msggen.Spec{Method: "POST", Host: "example.com", Path: "/a", Framing: framing, ContentType: ct,
+					Body: msggen.Body{Kind: "badform", Bad: bad, Size: 20, Seed: 3, Boundary: "b0undary-0123456789-abcdefghij"}}
+				if !yield(Case{Req: rq, Res: txt, Post: msggen.HarOpt{Mode: mode}, Body: allOpt}) {
 					return
 				}
 			}
